@@ -112,6 +112,34 @@ theorem C13_not_detailed (label : Label) (detailed : Bool) (n : Nat) (es : List 
   have P := cmMCMC_preserved label detailed n es ds out h hnd
   exact ⟨P.distinct, P.edgesNodup, P.len_le, P.deg_le, fun hl => ⟨P.deg_eq hl, P.sizes_eq hl⟩⟩
 
+/-- the returned listing is canonical: every hyperedge is the strictly increasing tuple of its node
+set and no two listed hyperedges have the same node set (coinciding hyperedges were merged), so
+"the output has as many hyperedges as the input" means exactly that no two reshuffled hyperedges
+coincided -/
+theorem C13_canonical (label : Label) (detailed : Bool) (n : Nat) (es : List Edge) (ds : List Draw)
+    (out : List Edge) (h : configurationModel label detailed none n es ds = .ok out)
+    (hnd : ∀ e ∈ es, e.Nodup) :
+    (∀ e ∈ out, e.Pairwise (· < ·)) ∧
+      out.Pairwise (fun e1 e2 => ¬ ∀ x, x ∈ e1 ↔ x ∈ e2) := by
+  have P := cmMCMC_preserved label detailed n es ds out h hnd
+  refine ⟨P.sorted, ?_⟩
+  have hd := P.distinct
+  have hall : out.Pairwise (fun e1 e2 => e1 ∈ out ∧ e2 ∈ out) :=
+    List.pairwise_of_forall_mem_list (fun a ha b hb => ⟨ha, hb⟩)
+  exact List.Pairwise.imp₂ (fun e1 e2 hne hmem hset =>
+    hne (strict_ext (P.sorted e1 hmem.1) (P.sorted e2 hmem.2) hset)) hd hall
+
+/-- the theorems speak of the runs that return; for every non-empty input and every number of steps
+such runs exist (e.g. when every drawn pair is `(0, 0)`), so their hypotheses are never vacuous.
+Termination of *all* runs is false (`.diverge` example below): the resampling loop stops with
+probability one only. -/
+theorem C13_returns (label : Label) (detailed : Bool) (n : Nat) (es : List Edge)
+    (hne : es ≠ []) (hnd : ∀ e ∈ es, e.Nodup) :
+    ∃ ds out, configurationModel label detailed none n es ds = .ok out := by
+  obtain ⟨es', h⟩ := chain_returns detailed n es [] hne hnd
+  refine ⟨List.replicate n (.idx 0 0) ++ [], dedup (es'.map sortNodes), ?_⟩
+  cases label <;> simp only [configurationModel, cmMCMC, stubEdgeMH, h]
+
 -- two steps, number of hyperedges preserved, hyperedges changed
 example : configurationModel .edge true none 2 [[0, 1], [2, 3], [0, 2]]
     [.idx 0 1, .coin true, .coin false, .coin false, .idx 2 0, .coin true]
@@ -213,14 +241,15 @@ example : swapStep false [([0, 1], [2]), ([2], [3, 4])] [0, 1, 1, 0] = .ok ([([0
 -- first refusal test: node 1 is already in the other source set
 example : swapStep false [([0, 1], [2]), ([1], [3, 4])] [0, 1, 0, 0] = .ok ([([0, 1], [2]), ([1], [3, 4])], []) := rfl
 
-/-- the returned hypergraph has distinct hyperedges, not more than the input, and no node has a
+/-- the returned hypergraph has distinct hyperedges in canonical form (both sides strictly increasing
+tuples, so distinct as pairs of node sets), not more than the input, and no node has a
 higher out-degree (source side) or in-degree (target side) -/
 theorem C13_directed_never_more (es : List DEdge) (ds : List Nat) (out : List DEdge)
     (h : directedCM es ds = .ok out) (hnd : ∀ e ∈ es, e.1.Nodup ∧ e.2.Nodup) :
-    out.Nodup ∧ (∀ e ∈ out, e.1.Nodup ∧ e.2.Nodup) ∧ out.length ≤ es.length ∧
+    out.Nodup ∧ (∀ e ∈ out, e.1.Pairwise (· < ·) ∧ e.2.Pairwise (· < ·)) ∧ out.length ≤ es.length ∧
       (∀ x, outDeg out x ≤ outDeg es x) ∧ (∀ x, inDeg out x ≤ inDeg es x) := by
   have P := directedCM_preserved es ds out h hnd
-  exact ⟨P.distinct, P.sidesNodup, P.len_le, P.out_le, P.in_le⟩
+  exact ⟨P.distinct, P.sorted, P.len_le, P.out_le, P.in_le⟩
 
 /-- when the number of hyperedges is preserved, every node keeps its out- and in-degree and the
 multiset of (source size, target size) shapes is unchanged -/
@@ -231,6 +260,13 @@ theorem C13_directed_preserved (es : List DEdge) (ds : List Nat) (out : List DEd
       (shapes out).Perm (shapes es) := by
   have P := directedCM_preserved es ds out h hnd
   exact ⟨P.out_eq hlen, P.in_eq hlen, P.shapes_eq hlen⟩
+
+/-- for every non-empty input there are returning runs (no side is touched when `id1 = id2`) -/
+theorem C13_directed_returns (es : List DEdge) (hne : es ≠ []) :
+    ∃ ds out, directedCM es ds = .ok out := by
+  refine ⟨List.replicate (2 * (es.length * 10)) 0 ++ (List.replicate (2 * (es.length * 10)) 0 ++ []),
+    dedup (es.map sortSides), ?_⟩
+  simp only [directedCM, swapLoop_returns _ _ es _ hne]
 
 -- a run with one source swap and one target swap between hyperedges of different shapes
 example : directedCM [([0, 1], [2]), ([2], [3, 4])]
